@@ -579,7 +579,11 @@ func ruleRetryBook(c *Ctx, r *Reporter) {
 				}
 			}
 		}
-		r.check(fix && push, "reconciler.(retries).Add|"+q+" re-positioned or pushed", c.posStr(add.Pos()), "an existing item is Fix()ed and a new one pushed in "+q, "Add does not keep "+q+" ordered when an item is re-added with new keys: the retry low watermark / wake-up order is wrong")
+		// the time-ordered heap's key (retryAt) changes on every Add, so an item that is already queued
+		// must be re-positioned; the revision-ordered heap's key (origRev) is fixed for the life of
+		// the item (see above), so there only the push of a new item is required
+		need := push && (fix || q == "revQueue")
+		r.check(need, "reconciler.(retries).Add|"+q+" re-positioned or pushed", c.posStr(add.Pos()), "a new item is pushed into "+q+" and, where its ordering key changes, an existing one is Fix()ed", "Add does not keep "+q+" complete and ordered when an item is (re-)added: the wake-up order / retry low watermark is wrong")
 	}
 	// backoff starts over after a change or a success: the callers of Clear
 	for _, spec := range [][2]string{{"single", "a new version of the object"}, {"batch", "a new version of the object (batch mode)"}} {
